@@ -16,7 +16,10 @@ def _take(p, names, extra_defines=(), **kw):
         v.update(kw); out.append(v)
     return out
 UNITS = []
-UNITS += _take('C01', ['claim', 'set_value', 'call_value', 'set_drop', 'set_exc', 'dtor', 'move_ctor', 'fu_ctor', 'get_promise', 'value'])
+UNITS += _take('C01', ['claim', 'set_value', 'call_value', 'set_drop', 'set_exc', 'dtor', 'move_ctor', 'fu_ctor', 'get_promise', 'value',
+                        # promise<T>::bind(): create / call / destroy the closure, bound arguments of 4, 64 and 200 bytes (specs/C01/bind_spec.h)
+                        'bind_int', 'bind_int_call', 'bind_int_dtor', 'bind_int_drive', 'bind_b64', 'bind_b64_call', 'bind_b64_dtor', 'bind_b64_drive',
+                        'bind_b200', 'bind_b200_call', 'bind_b200_dtor', 'bind_b200_drive'])
 UNITS += _take('C02', ['subscribe_check_ready', 'resume_chain_set_ready', 'resume', 'co_await_ready', 'co_await_suspend', 'co_await_suspend_fn', 'co_sync', 'co_force_sync', 'sa_wakeup', 'co_await_resume'])
 UNITS += _take('C07', ['ready', 'subscribe', 'unlock_rel', 'unlock_del', 'own_release', 'try_lock'])
 UNITS += _take('C06', ['add', 'ctor_handle', 'move_ctor', 'pop', 'ctor_default'])
